@@ -211,6 +211,14 @@ pub fn check(rep: &Report) {
         else if j < items.len() + n_mut { let mut rng = Rng::derive(rep.seed, "C01-mut", 0, j as u64); let it = &items[rng.below(items.len())]; ("mutated", if rng.chance(1, 2) { c02::mutate(&it.src, &mut rng) } else { ill_mutate(&it.src, &mut rng) }) }
         else if j < items.len() + n_mut + n_gen { let mut rng = Rng::derive(rep.seed, "C01-gen", 0, j as u64); let fuel = *rng.pick(&[4i64, 8, 16, 30, 60]); let nilb = rng.chance(1, 8); let partial = !nilb && rng.chance(1, 8); let mut g = Gen::new(&mut rng, fuel); g.allow_nil_binds = nilb; g.allow_partial_params = partial; (if nilb { "generated-nil-binders" } else if partial { "generated-partial-parameters" } else { "generated" }, g.program()) }
         else if j < items.len() + n_mut + n_gen + n_ill { let mut rng = Rng::derive(rep.seed, "C01-ill", 0, j as u64); let fuel = *rng.pick(&[4i64, 8, 16, 30]); let s = { let mut g = Gen::new(&mut rng, fuel); g.program() }; ("generated-ill-mutated", ill_mutate(&s, &mut rng)) }
+        else if j % 40 == 7 && j >= items.len() + n_mut + n_gen + n_ill {
+            // a dispatching function handed to a higher-order function whose parameter type another dispatching function shares:
+            // the call inside is specialised with a table looked up by callable type (recorded finding)
+            let mut rng = Rng::derive(rep.seed, "C01-hod", 0, j as u64);
+            let (a, b) = (rng.range(0, 9), rng.range(0, 9));
+            let third = if rng.chance(1, 2) { " | []" } else { "" };
+            ("higher-order-dispatch-templates", format!("f = #('int | 'bin) {{ | ='int => {a} | ='bin => 0x01 }},\ng = #('int | 'bin{third}) {{ | ='int => 0x02 | ='bin => {b}{} }},\napply = #[#('int | 'bin) -> ('int | 'bin), 'int] {{ =[h, x] => x h }},\n[[&{}, 5] apply, 1] __integer_add__", if third.is_empty() { "" } else { " | 3" }, if rng.chance(1, 2) { "g" } else { "f" }))
+        }
         else { let mut rng = Rng::derive(rep.seed, "C01-scen", 0, j as u64); let cfg = crate::scen::GenCfg { max_nodes: 6, max_depth: 3, confluent: true, fail_permille: 150, binaries: true }; use_reference = false; ("process-scenarios", crate::scen::generate(&mut rng, &cfg).emit()) };
         watch.enter(j, &src);
         let jd0 = crate::pool::catch(|| judge(&src, &b, &mods, use_reference));
@@ -225,7 +233,8 @@ pub fn check(rep: &Report) {
             // attribution to the recorded type holes, by the trigger the reference evaluator observed in this very run; the plain
             // generated family produces none of the triggers, so there every problem is reported as is
             let attributable = family != "generated";
-            let sig = if kind == "value-outside-inferred-type" && what.contains('μ') { "C01:inferred-type-with-escaped-cycle".to_string() }
+            let sig = if family == "higher-order-dispatch-templates" { "C01:return-type-dispatch-keyed-by-callable-type".to_string() }
+                else if kind == "value-outside-inferred-type" && what.contains('μ') { "C01:inferred-type-with-escaped-cycle".to_string() }
                 else if attributable && jd.events.contains(&"partial_parameter_with_a_field_at_another_index") { "C01:field-of-partial-typed-value-read-at-the-partial-types-index".to_string() }
                 else if attributable && jd.events.contains(&"tail_call_argument_outside_parameter_type") { "C01:tail-call-argument-unchecked".to_string() }
                 else if attributable && jd.events.contains(&"nil_bound_by_bare_binder") { "C01:variable-bound-to-nil-by-bare-binder-is-typed-non-nil".to_string() }
